@@ -138,6 +138,10 @@ CLAUSES = {
                 extra={'divides': 'ival(result) >= 0 and (ival(result) > 0 ==> (%s %% ival(result) == 0 and ival(term) %% ival(result) == 0))' % V,
                        'zero': '(ival(result) == 0) == (%s == 0 and ival(term) == 0)' % V}),
     'lcm': _new({'term': 'T'}, 'ival(result) == (0 if (%s == 0 or ival(term) == 0) else abs(%s * ival(term)) // gcd(%s, ival(term)))' % (V, V, V)),
+    # ---- integer square root (Newton iteration in the pure-python back ends): r*r <= v < (r+1)*(r+1); negative ==> ValueError.
+    # (modular square roots go through _tonelli_shanks, whose soundness is proved for python ints: contract below)
+    'sqrt': _new({'modulus': 'none'}, 'spec.integer.is_isqrt(%s, ival(result))' % V, raises={'ValueError': ('iff', '%s < 0' % V0)}),
+    'is_perfect_square': _query({}, 'bool', 'result == (%s >= 0 and spec.integer.isqrt(%s) * spec.integer.isqrt(%s) == %s)' % (V, V, V, V)),
     # ---- byte conversion (both byte orders; negative ==> ValueError; too large for block_size ==> ValueError)
     'to_bytes': _query({'block_size': 'nat', 'byteorder': ORDER}, 'bytes',
                        '(be(result) if byteorder == "big" else le(result)) == %s' % V,
@@ -182,7 +186,18 @@ def interface_contracts(reg, cls, frame, names=None, self_type=None, per_method=
 
 
 # per-method proof help for IntegerNative (options / lemmas only: never clauses)
+_NEWTON = ['x >= 0', 'y >= 0', 'value >= 1 ==> y >= 1', 'value == 0 ==> x == 0', '(x + 1) * (x + 1) > value', '(y + 1) * (y + 1) > value',
+           'y >= x ==> x * x <= value']
+_NEWTON2 = ['x >= 1', 'square_x == x * x', '(x + 1) * (x + 1) > self._value']
 NATIVE_HELP = {
+    # |v*t // g| == |v*t| // g because g = gcd(v, t) divides v*t
+    'lcm': {'lemmas': {'exit': {'div': '(ival(self) == 0 or ival(term) == 0) or lemma("integer.mul_divisible", ival(self), ival(term), gcd(ival(self), ival(term)))',
+                                'exact': '(ival(self) == 0 or ival(term) == 0) or lemma("integer.div_exact", ival(self) * ival(term), gcd(ival(self), ival(term)))'}}},
+    'sqrt': {'loops': {0: {'invariant': _NEWTON}}},
+    'is_perfect_square': {'loops': {0: {'invariant': _NEWTON2}},
+                          'lemmas': {'exit': {'root': 'self._value < 2 or spec.integer.is_isqrt(self._value, x)',
+                                              'unique': 'self._value < 2 or lemma("integer.isqrt_unique", self._value, x, spec.integer.isqrt(self._value))',
+                                              'small': 'self._value < 0 or self._value >= 2 or spec.integer.isqrt(self._value) == self._value'}}},
     '__and__': {'options': {'bitops': 'uf'}}, '__or__': {'options': {'bitops': 'uf'}},
     'size_in_bits': {'options': {'int_lemmas': []}}, 'size_in_bytes': {'options': {'int_lemmas': []}},
     'to_bytes': {'options': {'int_lemmas': []}},
@@ -270,9 +285,10 @@ def random_contracts(reg, cls=IN):
         modifies=['kwargs', TP + '.g_pos'], result='obj:' + cls,
         options={'enum_shift': 8, 'int_bytes': True})))
     # ---- random_range: rejection sampling on the normalised range [0, max - min]
-    LO = 'kwarg("min_inclusive")'
+    LOK = 'kwarg("min_inclusive")'
+    LO = 'ival(%s)' % LOK                            # bounds may be python ints or Integer objects
     MI, ME = 'kwarg("max_inclusive")', 'kwarg("max_exclusive")'
-    HI = '(%s if %s is not None else %s - 1)' % (MI, MI, ME)
+    HI = '(ival(%s) if %s is not None else ival(%s) - 1)' % (MI, MI, ME)
     RBITS = '(1 if %s - %s == 0 else bitlen(%s - %s))' % (HI, LO, HI, LO)     # size_in_bits(max - min)
     RNB = '((%s - 1) // 8 + 1)' % RBITS
     cand = 'spec.integer.candidate({T}.g_id, {T}.g_pos - {N}, {B}, False)'
@@ -283,6 +299,8 @@ def random_contracts(reg, cls=IN):
                 'kwargs': [kw(min_inclusive='int', max_inclusive='int', randfunc=TAPE_T),
                            kw(min_inclusive='int', max_exclusive='int', randfunc=TAPE_T),
                            kw(min_inclusive='int', max_inclusive='int'),
+                           kw(min_inclusive='int', max_inclusive='obj:' + cls, randfunc=TAPE_T),
+                           kw(min_inclusive='obj:' + cls, max_exclusive='obj:' + cls, randfunc=TAPE_T),
                            kw(min_inclusive='int', max_inclusive='int', max_exclusive='int', randfunc=TAPE_T),
                            kw(min_inclusive='int', randfunc=TAPE_T), kw(max_inclusive='int', randfunc=TAPE_T),
                            kw(min_inclusive='int', max_inclusive='int', modulus='int')]},
@@ -290,7 +308,7 @@ def random_contracts(reg, cls=IN):
         # keyword refusals; an empty interval (max < min) is refused too (no value exists)
         raises={'ValueError': ('iff', 'not kwargs_only("min_inclusive", "max_inclusive", "max_exclusive", "randfunc") or '
                                       '(%s is not None and %s is not None) or (%s is None and %s is None) or %s is None or %s < %s'
-                                      % (MI, ME, MI, ME, LO, HI, LO))},
+                                      % (MI, ME, MI, ME, LOK, HI, LO))},
         ensures={
             'range': '%s <= ival(result) and ival(result) <= %s' % (LO, HI),
             # the value returned is min + the LAST candidate drawn, unmodified (no modular reduction); the candidate has
@@ -327,10 +345,27 @@ def registry(self_class=IN):
     # TypeError while the other two back ends returned the product; the clause below is for int|Integer operands)
     static_contracts(reg, IN)
     random_contracts(reg, IN)
+    tonelli_contract(reg)
     return reg
 
 
-SIMPLE = [n for n in CLAUSES if n not in ('lcm',)] + ['__init__', 'from_bytes', '_mult_modulo_bytes']
+SIMPLE = [n for n in CLAUSES] + ['__init__', 'from_bytes', '_mult_modulo_bytes']
+
+
+def tonelli_contract(reg):
+    """_tonelli_shanks(n, p): SOUNDNESS only (what its callers need): every returned r is a square root of n modulo p -- from
+    the function's own final test; it may refuse (ValueError) whenever it likes, termination is not claimed, completeness for
+    prime p needs group theory (not attempted).  The loop invariants are therefore `True`."""
+    # the only facts the loops must carry are the ones that keep `2**i` and `2**(m - i - 1)` integer powers: i in [0, m-1] after
+    # the inner for loop; when that loop does not run (m == 0) the stale i equals m and the function refuses
+    stale = '(m >= 1 or i == m)'
+    return reg.add(Contract(IB + '._tonelli_shanks', params={'n': 'nat', 'p': 'pos'},
+                            raises={'ValueError': ('only_if', 'True')},
+                            ensures={'root': '(result * result - n) % p == 0', 'type': 'type(result) is int'},
+                            loops={0: {'invariant': ['s >= 1']}, 1: {'invariant': ['True']},
+                                   2: {'types': {'i': 'int'}, 'invariant': ['m >= 0', stale]},
+                                   3: {'index': '_k', 'types': {'i': 'int'}, 'invariant': ['(_k == 0 and %s) or (_k >= 1 and i == _k - 1)' % stale]}},
+                            modifies=[], result='int'))
 
 
 def registry_alt(target, i):
@@ -361,4 +396,6 @@ def units(prop, tier):
     for i in range(0, len(names), 3):
         grp = names[i:i + 3]
         out.append(pyvc_unit(prop, 'int.native.' + '+'.join(g.strip('_') for g in grp), registry, [IN + '.' + g for g in grp]))
+    out.append(pyvc_unit(prop, 'int.base._tonelli_shanks', registry, [IB + '._tonelli_shanks']))
+    out += lemma_units(prop, 'int.', registry)
     return out
